@@ -66,8 +66,8 @@ def h_tridonic_loss(ctx, point, two_callers, inflight=False):
             rig.os.open = open_
             d = H.tridonic("/dev/dali", reconnect_interval=1, reconnect_limit=limit)
             if ctx.symbolic:
-                from symx import shims
-                d._outstanding = shims.SymKeyDict()
+                rigs.symbolic_registries(d)
+            rigs.note_idle(d)
             d.exceptions_on_send = exceptions
             d.connection_status_callback.register(lambda dev, s: out["status"].append((round(loop.time(), 3), s)))
 
@@ -132,10 +132,10 @@ def h_tridonic_loss(ctx, point, two_callers, inflight=False):
             out["t1"], out["t2"] = _result(t1), _result(t2) if t2 else None
             out["connected"] = d.connected.is_set()
             out["identity"] = (d.firmware_version, d.serial)
-            out["outstanding"] = len(d._outstanding)
-            out["sem"] = d._command_semaphore._value
+            out["outstanding"] = rigs.held(d)["entries"]
+            out["sem"] = 2 - rigs.held(d)["semaphores"]
             out["locked"] = d.transaction_lock.locked()
-            out["watch_alive"] = d._bus_watch_task is not None and not d._bus_watch_task.done()
+            out["watch_alive"] = rigs.background_tasks_alive(d)[0]
             out["handshakes"] = state["handshakes"]
             for t in (t1, t2):
                 if t is not None and not t.done():
@@ -246,8 +246,8 @@ def h_tridonic_cancel(ctx):
             t.cancel()
             await vloop.settle(6)
             out["done"] = t.done()
-            out["outstanding"] = len(d._outstanding)
-            out["sem"] = d._command_semaphore._value
+            out["outstanding"] = rigs.held(d)["entries"]
+            out["sem"] = 2 - rigs.held(d)["semaphores"]
             out["locked"] = d.transaction_lock.locked()
             # a late report for the cancelled command must be ignored, and a new send must work
             if "seq" in out:
@@ -308,7 +308,7 @@ def h_hasseb_loss(ctx, point):
             await asyncio.sleep(6.0)
             out["t"] = _result(t)
             out["locked"] = d.transaction_lock.locked()
-            out["cmdlock"] = d._command_lock.locked()
+            out["cmdlock"] = rigs.held(d)["locks"] > 0
             if not t.done():
                 t.cancel()
             d.disconnect()
@@ -373,7 +373,7 @@ def h_serial_silence(ctx, which, when, dt=False):
         await asyncio.sleep(5.0)
         out["t2"] = _result(tk2)
         out["locked"] = d.transaction_lock.locked()
-        out["txlock"] = p._tx_lock.locked()
+        out["txlock"] = rigs.held(p)["locks"] > 0
     st, r = call(vloop.run, main)
     tag = "%s/silent-%s%s" % (which, when, "-dt" if dt else "")
     if st == "exc":
@@ -413,8 +413,8 @@ def h_tridonic_parked(ctx, nsend):
             state = {"lost": False}
             d = H.tridonic("/dev/dali", reconnect_interval=1)
             if ctx.symbolic:
-                from symx import shims
-                d._outstanding = shims.SymKeyDict()
+                rigs.symbolic_registries(d)
+            rigs.note_idle(d)
             d.exceptions_on_send = exceptions
 
             def gateway(data):
@@ -445,8 +445,8 @@ def h_tridonic_parked(ctx, nsend):
             await asyncio.sleep(6.0)
             out["last"] = _result(last)
             out["connected"] = d.connected.is_set()
-            out["outstanding"] = len(d._outstanding)
-            out["sem"] = d._command_semaphore._value
+            out["outstanding"] = rigs.held(d)["entries"]
+            out["sem"] = 2 - rigs.held(d)["semaphores"]
             out["locked"] = d.transaction_lock.locked()
             for t in tasks + [last]:
                 if not t.done():
@@ -526,14 +526,14 @@ def h_serial_cancel(ctx, which, dt=False):
         t1.cancel()
         await asyncio.sleep(1.0)
         out["t1"] = _result(t1)
-        out["locked1"] = d.transaction_lock.locked() or p._tx_lock.locked()
+        out["locked1"] = d.transaction_lock.locked() or rigs.held(p)["locks"] > 0
         t0 = loop.time()
         t2 = asyncio.ensure_future(d.send(c2))
         while not t2.done() and loop.time() - t0 < 5:
             await asyncio.sleep(0.005)
         out["elapsed"] = loop.time() - t0
         out["t2"] = _result(t2)
-        out["locked"] = d.transaction_lock.locked() or p._tx_lock.locked()
+        out["locked"] = d.transaction_lock.locked() or rigs.held(p)["locks"] > 0
         if not t2.done():
             t2.cancel()
     st, r = call(vloop.run, main)
